@@ -38,6 +38,7 @@ let dispatch (name : string) (args : M.n list) : M.n list list =
   | "DBG" -> M.run_dbg args
   | "C20" -> M.run_c20 args
   | "C14" -> M.run_c14 args
+  | "DBGT" -> M.run_dbgt args
   | _ -> failwith ("unknown case kind " ^ name)
 
 let () =
